@@ -59,7 +59,7 @@ def enc(v):
         return {"q": q(v)}
     if isinstance(v, str):
         return {"s": v}
-    return {"o": 0}
+    return {"o": userfns.py_to_opq(v)}
 
 
 def frac(s):
@@ -157,8 +157,26 @@ def to_J(v):
     if isinstance(v, (list, tuple, np.ndarray)):
         return {"a": [to_J(x) for x in v]}
     if isinstance(v, dict):
+        if userfns.py_to_opq(v):
+            return {"o": userfns.py_to_opq(v)}       # keyword arguments of an arb_func segment (registered contents)
         return {"d": [[str(k), to_J(x)] for k, x in v.items()]}
-    return {"o": 0}
+    return {"o": userfns.py_to_opq(v)}
+
+
+def json_ok(d):
+    """json.dumps succeeds.  A registered keyword dict of an arb_func segment counts as an opaque object here, as it does in
+    the model (whose values are numbers, strings, None or opaque objects); such descriptions are outside C19's domain."""
+    def has_opaque_dict(x):
+        if isinstance(x, dict):
+            return bool(userfns.py_to_opq(x)) or any(has_opaque_dict(v) for v in x.values())
+        if isinstance(x, (list, tuple)):
+            return any(has_opaque_dict(v) for v in x)
+        return False
+    try:
+        json.dumps(d)
+    except TypeError:
+        return False
+    return not has_opaque_dict(d)
 
 
 def J_equal(a, b, path="", sort_keys=("awgspecs",), tol=0):
@@ -179,6 +197,8 @@ def J_equal(a, b, path="", sort_keys=("awgspecs",), tol=0):
     if ka == "s":
         return None if a["s"] == b["s"] else f"{path}: {a['s']!r} != {b['s']!r}"
     if ka == "o":
+        if a.get("o") and b.get("o") and a["o"] != b["o"]:
+            return f"{path}: object #{a['o']} != object #{b['o']}"
         return None
     if ka == "a":
         if len(a["a"]) != len(b["a"]):
@@ -215,6 +235,8 @@ def eval_block(blk):
     args = []
     for a in c["args"]:
         v = dec_val(a)
+        if isinstance(v, tuple) and v and v[0] == "opaque":
+            v = userfns.opq_to_py(v[1])
         args.append(float(v) if isinstance(v, Fraction) else v)
     SR = Fraction(c["SR"])
     SRf = int(SR) if SR.denominator == 1 and abs(SR) < 2**53 else float(SR)
@@ -354,7 +376,7 @@ class Impl:
                 return np.float64(float(f)) if getattr(self, "_np", False) else float(f)
             if "s" in j:
                 return j["s"]
-            return object()
+            return userfns.opq_to_py(j.get("o"))
         if isinstance(j, str):
             try:
                 return float(Fraction(j))
@@ -422,11 +444,7 @@ class Impl:
     def op_bp_desc(self, op):
         b = self.g(op["id"])
         d = b.description
-        try:
-            json.dumps(d)
-            ser = True
-        except TypeError:
-            ser = False
+        ser = json_ok(d)
         return {"desc": to_J(d), "SR": enc(b.SR), "durations": [enc(x) for x in b.durations],
                 "length": b.length_segments, "serialisable": ser}
 
@@ -476,11 +494,7 @@ class Impl:
 
     def op_el_desc(self, op):
         d = self.g(op["id"]).description
-        try:
-            json.dumps(d)
-            ser = True
-        except TypeError:
-            ser = False
+        ser = json_ok(d)
         return {"desc": to_J(d), "serialisable": ser}
 
     def op_el_copy(self, op):
@@ -554,11 +568,7 @@ class Impl:
 
     def op_sq_desc(self, op):
         d = self.g(op["id"]).description
-        try:
-            json.dumps(d)
-            ser = True
-        except TypeError:
-            ser = False
+        ser = json_ok(d)
         return {"desc": to_J(d), "serialisable": ser}
 
     def op_sq_forge(self, op):
